@@ -320,7 +320,7 @@ Unsubscribe(a, arg) ==
         ELSE IF WindowFull(s.unsub, k) THEN
           /\ fx' = <<FireErr(d, "MQTTWindowError"), Ret(d, -1)>> /\ nextId' = id0 /\ UNCHANGED <<sess, conn, timers, now>>
         ELSE IF ~nt.ok THEN
-          /\ fx' = <<FireErr(d, "TypeError"), Ret(d, -1)>> /\ nextId' = (IF nt.listOK THEN id ELSE id0) /\ UNCHANGED <<sess, conn, timers, now>>
+          /\ fx' = <<FireErr(d, nt.cls), Ret(d, -1)>> /\ nextId' = (IF nt.listOK THEN id ELSE id0) /\ UNCHANGED <<sess, conn, timers, now>>
         ELSE IF \E i \in 1..Len(nt.ts) : ~TextOK(nt.ts[i]) THEN
           /\ fx' = <<FireErr(d, "ValueError"), Ret(d, -1)>> /\ nextId' = id /\ UNCHANGED <<sess, conn, timers, now>>
         ELSE
